@@ -318,4 +318,22 @@ PROPS = {
         "assumptions": ["sentry-go v0.27.0 event structure"],
         "parts": [rapid("report", "TestProp", 12000, 240000), plain("nil-report", "TestNilReport")],
     },
+    "C07": {
+        "pkg": "c07",
+        "level": "exploration",
+        "level_text": "Generated search with shrinking over constructed trees: a generated sub-tree H carrying hints, details, domains, assertion flags, HTTP/gRPC "
+                      "codes, telemetry keys, issue links, tags and sentinels is hidden by a drawn mechanism (each of the 7 barrier constructors, WithSecondaryError, "
+                      "CombineErrors, an error-typed Wrapf argument, a Mark reference) below 0-3 drawn wrappers. Oracles: (i) no freshly built node of H is "
+                      "reachable through Unwrap/Cause/UnwrapAll/multi-cause traversal; (ii) metamorphic non-interference: replacing every hidden sub-tree by "
+                      "stdlib errors.New(H.Error()) changes neither Error(), nor any accessor, nor any Is/IsAny/HasType/As/If answer against fresh copies of "
+                      "H's nodes, the sentinel pool and 19 As targets, locally and after 1-2 hops; for Mark, dropping the Mark layer changes no accessor that "
+                      "is not decided by Is; (iii) Handled* text as documented; (iv) every token of H's text is visible in %+v.",
+        "level_note": "Mark references are kept (not replaced) when Is is compared, because the mark is exactly what Mark contributes (C08 models it); stack and "
+                      "safe-detail layers of the barrier itself are excluded from the snapshot comparison.",
+        "technique": "property-based testing (rapid): metamorphic oracle (replace hidden sub-tree by a plain error with the same text) + identity-based reachability check",
+        "rule": "rapid-constructed trees with at least one hidden sub-tree (2-6 spec nodes quick, 2-12 thorough, boosted annotation/sentinel kinds); 0-2 hops. "
+                "Non-trivial = a hidden sub-tree of at least 2 layers carrying at least one annotation or sentinel. Distinct = hash of the case JSON.",
+        "assumptions": ["stdlib errors.New(text) is an error that contributes nothing but its text"],
+        "parts": [rapid("hidden", "TestProp", 4000, 80000)],
+    },
 }
